@@ -1,16 +1,24 @@
 // Command seq_time decides C13: timestamps are parsed exactly and parsing is total. Bounded-exhaustive enumeration of
-// the exported parseTime transform against an integer reference (days-from-civil arithmetic).
+// the exported parseTime transform against an integer reference (days-from-civil arithmetic) and a reference recogniser
+// for arbitrary strings (model.go), under several process time zones (zones.go), with the value handed over as an
+// immutable string and as a view of a recycled buffer, through fresh and long-lived transform instances (history.go),
+// and behind the real syslog parser / parsing receiver / record allocator (pipeline.go). See README.md.
 package main
 
 import (
+	"encoding/json"
+	"flag"
 	"fmt"
+	"os"
 	"strings"
+	"sync"
 	"time"
 
 	"github.com/relex/gotils/logger"
 	"github.com/relex/slog-agent/base"
 	"github.com/relex/slog-agent/base/btest"
 	"github.com/relex/slog-agent/transform/tparsetime"
+	"github.com/relex/slog-agent/util"
 
 	"slogverif/seq"
 )
@@ -58,29 +66,72 @@ func newFixture() *fixture {
 	return &fixture{schema: schema, tf: cfg.NewTransform(schema, logger.Root(), reg), lookup: lookup}
 }
 
+// fixtures are the long-lived transform instances of this worker process, one per environment.
+var fixtures = make([]*fixture, len(zoneEnvs))
+
+// envFixture installs environment ei and returns the long-lived instance that lives in it.
+func envFixture(ei int) *fixture {
+	useEnv(zoneEnvs[ei])
+	if fixtures[ei] == nil {
+		fixtures[ei] = newFixture()
+	}
+	return fixtures[ei]
+}
+
+// freshFixture installs environment ei and returns a new instance (empty time zone cache).
+func freshFixture(ei int) *fixture {
+	useEnv(zoneEnvs[ei])
+	return newFixture()
+}
+
 var fallback = time.Unix(1234567890, 987654321)
 
-// parse runs the transform on one value; returns the resulting timestamp and whether an error was counted.
-func (f *fixture) parse(value string) (time.Time, bool, base.FilterResult) {
-	rec := f.schema.NewTestRecord2(fallback, base.LogFields{value})
+// obs is what one Transform call did.
+type obs struct {
+	ts      time.Time
+	counted bool
+	res     base.FilterResult
+}
+
+func (f *fixture) transform(rec *base.LogRecord) obs {
 	rec.RawLength = 100
 	before, _ := f.lookup("timeError")
 	res := f.tf.Transform(rec)
 	after, _ := f.lookup("timeError")
-	return rec.Timestamp, after > before, res
+	return obs{rec.Timestamp, after > before, res}
 }
 
-func checkExact(f *fixture, text string, secs, ns int64) (string, string) {
-	f.parse(text) // first occurrence fills the time zone cache; the second one is checked
-	ts, counted, res := f.parse(text)
-	if res != base.PASS {
-		return "not-pass", fmt.Sprintf("%q: transform returned %v", text, res)
+// parse runs the transform on one value held in an ordinary immutable string.
+func (f *fixture) parse(value string) obs {
+	return f.transform(f.schema.NewTestRecord2(fallback, base.LogFields{value}))
+}
+
+// scratch is this worker's "read buffer": in recycled mode every value is written to its start and the field handed to
+// the transform is a view of those bytes (util.StringFromBytes, the way LogAllocator.NewRecord hands out pooled
+// buffers); the next value overwrites them. Whatever the transform keeps that still points into the buffer changes
+// under its feet.
+var scratch = make([]byte, 1<<17)
+
+func (f *fixture) parseRecycled(value string) obs {
+	if len(value) > len(scratch) {
+		scratch = make([]byte, 2*len(value))
 	}
-	if counted {
-		return "valid-rejected", fmt.Sprintf("%q is a valid RFC 3339 timestamp but was counted as an error", text)
+	n := copy(scratch, value)
+	return f.transform(f.schema.NewTestRecord2(fallback, base.LogFields{util.StringFromBytes(scratch[:n])}))
+}
+
+// ---- the oracle clauses; tag names the situation (":first-parse", ":on-repetition", ":recycled-buffer", ...) and is
+// part of the violation key
+
+func judgeValid(text string, o obs, secs, ns int64, tag string) (string, string) {
+	if o.res != base.PASS {
+		return "not-pass", fmt.Sprintf("%q: transform returned %v", clipText(text), o.res)
 	}
-	if ts.Unix() != secs || int64(ts.Nanosecond()) != ns {
-		d := (ts.Unix()-secs)*1_000_000_000 + int64(ts.Nanosecond()) - ns
+	if o.counted {
+		return "valid-rejected" + tag, fmt.Sprintf("%q is a valid RFC 3339 timestamp but was counted as an error (process zone %s)", clipText(text), time.Local)
+	}
+	if o.ts.Unix() != secs || int64(o.ts.Nanosecond()) != ns {
+		d := (o.ts.Unix()-secs)*1_000_000_000 + int64(o.ts.Nanosecond()) - ns
 		cls := "inexact:other"
 		switch {
 		case d == -1:
@@ -88,9 +139,73 @@ func checkExact(f *fixture, text string, secs, ns int64) (string, string) {
 		case d == 1:
 			cls = "inexact:1ns-high"
 		}
-		return cls, fmt.Sprintf("%q parsed to %d.%09d, the instant denoted is %d.%09d (off by %d ns)", text, ts.Unix(), ts.Nanosecond(), secs, ns, d)
+		return cls + tag, fmt.Sprintf("%q parsed to %d.%09d, the instant denoted is %d.%09d (off by %d ns; process zone %s)", clipText(text), o.ts.Unix(), o.ts.Nanosecond(), secs, ns, d, time.Local)
 	}
 	return "", ""
+}
+
+// judgeLeap: a valid leap second must be accepted; Unix time cannot express it, so :59 + 1 s (roll over into the next
+// minute) and :59 (clamp) are both right, with the fraction kept.
+func judgeLeap(text string, o obs, secs59, ns int64, tag string) (string, string) {
+	if o.res != base.PASS {
+		return "not-pass", fmt.Sprintf("%q: transform returned %v", text, o.res)
+	}
+	if o.counted {
+		return "valid-rejected:leap-second" + tag, fmt.Sprintf("%q is a valid RFC 3339 timestamp (leap second, time-second = 00-60) but was counted as an error", text)
+	}
+	if (o.ts.Unix() != secs59 && o.ts.Unix() != secs59+1) || int64(o.ts.Nanosecond()) != ns {
+		return "inexact:leap-second" + tag, fmt.Sprintf("%q parsed to %d.%09d, expected %d.%09d or one second earlier", text, o.ts.Unix(), o.ts.Nanosecond(), secs59+1, ns)
+	}
+	return "", ""
+}
+
+func judgeReject(text string, o obs, fb time.Time, why, tag string) (string, string) {
+	if o.res != base.PASS {
+		return "not-pass", fmt.Sprintf("%q: transform returned %v", clipText(text), o.res)
+	}
+	if !o.counted || !o.ts.Equal(fb) {
+		return "malformed-accepted:" + why + tag, fmt.Sprintf("%q (%s) must be reported as an error and leave the receive time in place: counted=%v timestamp=%v", clipText(text), why, o.counted, o.ts.UTC())
+	}
+	return "", ""
+}
+
+// judgeEither: outside both claims; whatever the transform decides, an error that is counted leaves the time untouched.
+func judgeEither(text string, o obs, fb time.Time, tag string) (string, string) {
+	if o.res != base.PASS {
+		return "not-pass", fmt.Sprintf("%q: transform returned %v", clipText(text), o.res)
+	}
+	if o.counted && !o.ts.Equal(fb) {
+		return "error-counted-but-time-changed" + tag, fmt.Sprintf("%q was counted as an error, yet the receive time was replaced by %v", clipText(text), o.ts.UTC())
+	}
+	return "", ""
+}
+
+func judge(text string, m model, o obs, fb time.Time, tag string) (string, string) {
+	switch m.v {
+	case vValid:
+		return judgeValid(text, o, m.secs, m.ns, tag)
+	case vLeap:
+		return judgeLeap(text, o, m.secs, m.ns, tag)
+	case vReject:
+		return judgeReject(text, o, fb, m.why, tag)
+	}
+	return judgeEither(text, o, fb, tag)
+}
+
+func clipText(s string) string {
+	if len(s) > 120 {
+		return fmt.Sprintf("%s...(%d bytes)...%s", s[:60], len(s), s[len(s)-40:])
+	}
+	return s
+}
+
+// checkExact: a valid timestamp through one instance twice; BOTH results are compared: the first parse (on a fresh
+// instance: the uncached path that fills the time zone cache) and the second one (the cached path).
+func checkExact(f *fixture, text string, secs, ns int64) (string, string) {
+	if k, m := judgeValid(text, f.parse(text), secs, ns, ":first-parse"); k != "" {
+		return k, m
+	}
+	return judgeValid(text, f.parse(text), secs, ns, "")
 }
 
 // checkRejected: the string is not shaped like a date-time: error counted, fallback time kept, no panic.
@@ -98,28 +213,33 @@ func checkRejected(f *fixture, text, why string) (string, string) {
 	// the same transform instance sees the string several times (a connection repeats its timestamps; the transform
 	// keeps a time zone cache): every occurrence must be rejected, not only the first
 	for round := 1; round <= 3; round++ {
-		ts, counted, res := f.parse(text)
-		if res != base.PASS {
-			return "not-pass", fmt.Sprintf("%q: transform returned %v", text, res)
+		tag := ""
+		if round > 1 {
+			tag = ":on-repetition"
 		}
-		if !counted || !ts.Equal(fallback) {
-			cls := "malformed-accepted:" + why
-			if round > 1 {
-				cls += ":on-repetition"
-			}
-			return cls, fmt.Sprintf("%q (%s), occurrence %d through one transform instance, must be reported as an error and leave the receive time in place: counted=%v timestamp=%v", text, why, round, counted, ts.UTC())
+		if k, m := judgeReject(text, f.parse(text), fallback, why, tag); k != "" {
+			return k, m + fmt.Sprintf(" (occurrence %d through one transform instance)", round)
 		}
 	}
 	return "", ""
 }
 
-// checkTotal: any string: no panic (a panic is caught by seq and reported with its site).
-func checkTotal(f *fixture, text string) (string, string) {
-	_, _, res := f.parse(text)
-	if res != base.PASS {
-		return "not-pass", fmt.Sprintf("%q: transform returned %v", text, res)
+// checkModel: any string, judged by the reference recogniser; two (valid / either) or three (reject) occurrences.
+func checkModel(f *fixture, text string) (string, string) {
+	m := classify(text)
+	if k, msg := crossCheck(text, m); k != "" {
+		return k, msg
 	}
-	return "", ""
+	switch m.v {
+	case vValid:
+		return checkExact(f, text, m.secs, m.ns)
+	case vReject:
+		return checkRejected(f, text, m.why)
+	}
+	if k, msg := judge(text, m, f.parse(text), fallback, ":first-parse"); k != "" {
+		return k, msg
+	}
+	return judge(text, m, f.parse(text), fallback, "")
 }
 
 // cutInsideOffset reports whether s[:n] ends inside the numeric offset of the valid timestamp s (sign seen, offset incomplete).
@@ -131,8 +251,81 @@ func cutInsideOffset(s string, n int) bool {
 	return n > i && n < len(s)
 }
 
+// allZones calls fn for Z and every numeric offset hh<24, mm<60, both signs, colon and compact form (2881 spellings).
+func allZones(fn func(tz string, off int64)) {
+	fn("Z", 0)
+	for _, sign := range []int64{1, -1} {
+		s := "+"
+		if sign < 0 {
+			s = "-"
+		}
+		for hh := int64(0); hh < 24; hh++ {
+			for mm := int64(0); mm < 60; mm++ {
+				fn(fmt.Sprintf("%s%02d:%02d", s, hh, mm), sign*(hh*3600+mm*60))
+				fn(fmt.Sprintf("%s%02d%02d", s, hh, mm), sign*(hh*3600+mm*60))
+			}
+		}
+	}
+}
+
+var (
+	zoneList []string // the 2881 spellings in allZones order
+	zoneOffs []int64
+)
+
+func init() {
+	allZones(func(tz string, off int64) { zoneList = append(zoneList, tz); zoneOffs = append(zoneOffs, off) })
+}
+
+func fmtOffset(off int, colon bool) string {
+	s := "+"
+	if off < 0 {
+		s = "-"
+		off = -off
+	}
+	if colon {
+		return fmt.Sprintf("%s%02d:%02d", s, off/3600, off/60%60)
+	}
+	return fmt.Sprintf("%s%02d%02d", s, off/3600, off/60%60)
+}
+
+// replayID returns the case id of a single-case run (-case / -replay), "" in a normal run. In a single-case run the
+// ordinals do not matter, so the big sweeps that cannot contain the case are not generated (a thorough replay would
+// otherwise format 10^9 fractions first).
+func replayID() string {
+	if f := flag.Lookup("case"); f != nil && f.Value.String() != "" {
+		return f.Value.String()
+	}
+	if f := flag.Lookup("replay"); f != nil && f.Value.String() != "" {
+		var doc struct {
+			CaseID string `json:"case"`
+		}
+		if data, err := os.ReadFile(f.Value.String()); err == nil && json.Unmarshal(data, &doc) == nil {
+			return doc.CaseID
+		}
+	}
+	return ""
+}
+
+// wanted reports whether cases whose ids start with prefix have to be generated.
+func wanted(prefix string) bool {
+	id := replayID()
+	return id == "" || strings.HasPrefix(id, prefix)
+}
+
 func enumerate(ctx *seq.Ctx) {
-	f := newFixture()
+	// ---- two instances used at the same time by two goroutines, from an empty state (placed first: nothing in this
+	// process has parsed anything yet). Instances are per pipeline and pipelines run concurrently: they must not share
+	// mutable state. An unsynchronised shared map ends the process ("fatal error: concurrent map ..."), which the
+	// driver attributes to the case in flight.
+	ctx.Group("isolation/two-instances-concurrent")
+	for n := 0; n < 32; n++ {
+		ei := n % len(zoneEnvs)
+		ctx.Case(fmt.Sprintf("concurrent/%d", n), true, "all zones, ascending in one goroutine, descending in the other", func() (string, string) {
+			return runConcurrent(ei)
+		})
+	}
+
 	// ---- exactness of fractions: ALL fractions of 1..6 digits (quick) and 1..9 digits (thorough)
 	const base1 = "2019-08-15T15:50:46"
 	secsBase, _ := refInstant(2019, 8, 15, 15, 50, 46, "", 3*3600)
@@ -141,7 +334,16 @@ func enumerate(ctx *seq.Ctx) {
 		maxDigits = 9
 	}
 	buf := make([]byte, 0, 64)
-	for nd := 1; nd <= maxDigits && !ctx.Stop(); nd++ {
+	if id := replayID(); strings.HasPrefix(id, "frac/") && len(id) > 5 && len(id) <= 14 && allDigits(id[5:]) {
+		// single-case run of one fraction: generate just that one
+		digits := id[5:]
+		text := base1 + "." + digits + "+03:00"
+		_, ns := refInstant(0, 1, 1, 0, 0, 0, digits, 0)
+		ctx.Group("fraction/single")
+		ctx.Case(id, true, text, func() (string, string) { return checkExact(envFixture(envDefault), text, secsBase, ns) })
+		maxDigits = 0
+	}
+	for nd := 1; nd <= maxDigits && !ctx.Stop() && wanted("frac/"); nd++ {
 		ctx.Group(fmt.Sprintf("fraction/%d-digits/all", nd))
 		limit := int64(1)
 		for i := 0; i < nd; i++ {
@@ -162,10 +364,10 @@ func enumerate(ctx *seq.Ctx) {
 			buf = append(buf, "+03:00"...)
 			text := string(buf)
 			_, ns := refInstant(0, 1, 1, 0, 0, 0, digits, 0)
-			ctx.Case("frac/"+digits, true, text, func() (string, string) { return checkExact(f, text, secsBase, ns) })
+			ctx.Case("frac/"+digits, true, text, func() (string, string) { return checkExact(envFixture(envDefault), text, secsBase, ns) })
 		}
 	}
-	if !ctx.Thorough() {
+	if !ctx.Thorough() && wanted("frac/") && maxDigits > 0 {
 		// quick tier, 7-9 digits: the finite sub-domain "all digits zero outside one aligned 3-digit window" plus the 10^5
 		// smallest and largest values of each length (completely enumerated, not sampled)
 		for nd := 7; nd <= 9; nd++ {
@@ -178,7 +380,7 @@ func enumerate(ctx *seq.Ctx) {
 				seen[digits] = true
 				text := base1 + "." + digits + "+03:00"
 				_, ns := refInstant(0, 1, 1, 0, 0, 0, digits, 0)
-				ctx.Case("frac/"+digits, true, text, func() (string, string) { return checkExact(f, text, secsBase, ns) })
+				ctx.Case("frac/"+digits, true, text, func() (string, string) { return checkExact(envFixture(envDefault), text, secsBase, ns) })
 			}
 			for start := 0; start+3 <= nd; start++ {
 				for w := 0; w < 1000; w++ {
@@ -194,6 +396,31 @@ func enumerate(ctx *seq.Ctx) {
 			for v := int64(0); v < 100000; v++ {
 				emit(fmt.Sprintf("%0*d", nd, v))
 				emit(fmt.Sprintf("%0*d", nd, limit-1-v))
+			}
+		}
+	}
+	// ---- fractions of every length 0..9 in front of Z, the compact form, a negative and an odd offset, in both halves of
+	// the year, through fresh instances under rotating process zones
+	ctx.Group("fraction/lengths-x-zones")
+	for _, date := range []string{"2020-01-15T12:00:00", "2020-07-15T12:00:00"} {
+		for _, z := range []string{"Z", "+0300", "-08:00", "+05:45"} {
+			for nd := 0; nd <= 9; nd++ {
+				seen := map[string]bool{}
+				for _, pat := range []string{"000000000", "000000001", "100000000", "123456789", "499999999", "500000000", "999999999"} {
+					for _, digits := range []string{pat[:nd], pat[9-nd:]} {
+						if seen[digits] {
+							continue
+						}
+						seen[digits] = true
+						text := date
+						if nd > 0 {
+							text += "." + digits
+						}
+						text += z
+						ei := (nd + len(z)) % len(zoneEnvs)
+						ctx.Case("fraczone/"+text, true, text, func() (string, string) { return checkModel(freshFixture(ei), text) })
+					}
+				}
 			}
 		}
 	}
@@ -220,38 +447,135 @@ func enumerate(ctx *seq.Ctx) {
 						}
 						text += tz
 						secs, ns := refInstant(2020, 2, 29, 23, 59, 59, frac, sign*(hh*3600+mm*60))
-						ctx.Case("offset/"+text, true, text, func() (string, string) { return checkExact(f, text, secs, ns) })
+						ctx.Case("offset/"+text, true, text, func() (string, string) { return checkExact(envFixture(envDefault), text, secs, ns) })
 					}
 				}
 			}
 		}
 	}
-	// ---- dates: every month end, leap days, boundary years, with Z
-	ctx.Group("dates")
-	mdays := []int64{31, 28, 31, 30, 31, 30, 31, 31, 30, 31, 30, 31}
-	for _, y := range []int64{1, 1600, 1900, 1969, 1970, 1999, 2000, 2019, 2020, 2038, 2100, 9999} {
-		leap := (y%4 == 0 && y%100 != 0) || y%400 == 0
+	// ---- environment x offset x season: every zone spelling on a winter and a summer date under every process time
+	// zone, each case through a FRESH instance (the first parse is the uncached one) and twice
+	envFracs := []string{"", ".123456789"}
+	envDates := [][3]int64{{2020, 1, 15}, {2020, 7, 15}}
+	if ctx.Thorough() {
+		envFracs = []string{"", ".5", ".123", ".000001", ".123456789"}
+		envDates = nil
 		for m := int64(1); m <= 12; m++ {
-			last := mdays[m-1]
-			if m == 2 && leap {
-				last = 29
+			envDates = append(envDates, [3]int64{2020, m, 15})
+		}
+	}
+	for ei, env := range zoneEnvs {
+		ctx.Group("env/" + env.name + "/offsets-x-seasons")
+		for _, date := range envDates {
+			for _, frac := range envFracs {
+				for zi, tz := range zoneList {
+					if !ctx.Mine() {
+						ctx.Skip()
+						continue
+					}
+					text := fmt.Sprintf("%04d-%02d-%02dT12:00:00%s%s", date[0], date[1], date[2], frac, tz)
+					secs, ns := refInstant(date[0], date[1], date[2], 12, 0, 0, strings.TrimPrefix(frac, "."), zoneOffs[zi])
+					ctx.Case("env/"+env.name+"/"+text, true, text, func() (string, string) { return checkExact(freshFixture(ei), text, secs, ns) })
+				}
 			}
-			for _, d := range []int64{1, 15, last} {
-				for _, hms := range [][3]int64{{0, 0, 0}, {12, 34, 56}, {23, 59, 59}} {
-					for _, z := range []string{"Z", "+00:00", "-00:00", "+14:00", "-12:00"} {
-						off := int64(0)
-						switch z {
-						case "+14:00":
-							off = 14 * 3600
-						case "-12:00":
-							off = -12 * 3600
+		}
+		// the days on which the local offset changes, hour by hour, in the zone's own two offsets, UTC and a foreign offset
+		if env.switch1 != "" {
+			ctx.Group("env/" + env.name + "/switch-days")
+			for _, day := range []string{env.switch1, env.switch2} {
+				for h := 0; h < 24; h++ {
+					for _, mi := range []int{0, 30, 59} {
+						for _, off := range []int{env.jan, env.jul, 0, 12600} {
+							for _, colon := range []bool{true, false} {
+								text := fmt.Sprintf("%sT%02d:%02d:00%s", day, h, mi, fmtOffset(off, colon))
+								ctx.Case("env/"+env.name+"/"+text, true, text, func() (string, string) { return checkModel(freshFixture(ei), text) })
+							}
 						}
-						text := fmt.Sprintf("%04d-%02d-%02dT%02d:%02d:%02d.123456789%s", y, m, d, hms[0], hms[1], hms[2], z)
-						secs, ns := refInstant(y, m, d, hms[0], hms[1], hms[2], "123456789", off)
-						ctx.Case("date/"+text, true, text, func() (string, string) { return checkExact(f, text, secs, ns) })
+						text := fmt.Sprintf("%sT%02d:%02d:00Z", day, h, mi)
+						ctx.Case("env/"+env.name+"/"+text, true, text, func() (string, string) { return checkModel(freshFixture(ei), text) })
 					}
 				}
 			}
+		}
+	}
+	// ---- dates: every month end, leap days, boundary years, with Z and the extreme offsets, under every process time zone
+	mdays := []int64{31, 28, 31, 30, 31, 30, 31, 31, 30, 31, 30, 31}
+	for ei, env := range zoneEnvs {
+		ctx.Group("dates/" + env.name)
+		for _, y := range []int64{0, 1, 1600, 1900, 1969, 1970, 1999, 2000, 2019, 2020, 2038, 2100, 9999} {
+			leap := (y%4 == 0 && y%100 != 0) || y%400 == 0
+			for m := int64(1); m <= 12; m++ {
+				last := mdays[m-1]
+				if m == 2 && leap {
+					last = 29
+				}
+				for _, d := range []int64{1, 15, last} {
+					for _, hms := range [][3]int64{{0, 0, 0}, {12, 34, 56}, {23, 59, 59}} {
+						for _, z := range []string{"Z", "+00:00", "-00:00", "+14:00", "-12:00"} {
+							off := int64(0)
+							switch z {
+							case "+14:00":
+								off = 14 * 3600
+							case "-12:00":
+								off = -12 * 3600
+							}
+							text := fmt.Sprintf("%04d-%02d-%02dT%02d:%02d:%02d.123456789%s", y, m, d, hms[0], hms[1], hms[2], z)
+							secs, ns := refInstant(y, m, d, hms[0], hms[1], hms[2], "123456789", off)
+							ctx.Case("date/"+env.name+"/"+text, true, text, func() (string, string) { return checkExact(envFixture(ei), text, secs, ns) })
+						}
+					}
+				}
+			}
+		}
+	}
+	// ---- every number of the date-time over ALL its two-digit (year: four-digit) values, in range and out of range:
+	// judged by the recogniser (in range: exact; out of range: outside both claims, totality only)
+	ctx.Group("fields/every-value")
+	fieldCase := func(text string) {
+		ctx.Case("field/"+text, true, text, func() (string, string) { return checkModel(envFixture(envDefault), text) })
+	}
+	for y := 0; y <= 9999; y++ {
+		if !ctx.Mine() {
+			ctx.Skip()
+			continue
+		}
+		fieldCase(fmt.Sprintf("%04d-03-01T00:00:00.5+05:45", y))
+	}
+	for v := 0; v <= 99; v++ {
+		fieldCase(fmt.Sprintf("2019-08-15T15:50:46+%02d:30", v))   // offset hours
+		fieldCase(fmt.Sprintf("2019-08-15T15:50:46-%02d00", v))    //
+		fieldCase(fmt.Sprintf("2019-08-15T15:50:46.5-07:%02d", v)) // offset minutes
+		fieldCase(fmt.Sprintf("2019-08-15T15:50:46.5+23%02d", v))  //
+		for _, z := range []string{"Z", "-08:00", "+0545"} {
+			fieldCase(fmt.Sprintf("2019-%02d-15T15:50:46%s", v, z))           // month
+			fieldCase(fmt.Sprintf("2019-08-15T%02d:50:46.866915%s", v, z))    // hour
+			fieldCase(fmt.Sprintf("2019-08-15T15:%02d:46.866%s", v, z))       // minute
+			fieldCase(fmt.Sprintf("2019-08-15T15:50:%02d.123456789%s", v, z)) // second
+			fieldCase(fmt.Sprintf("2019-08-15T23:59:%02d%s", v, z))           // second, end of day
+			for _, ym := range []string{"1900-02", "2000-02", "2019-02", "2020-02", "2019-04", "2019-12", "2019-01"} {
+				fieldCase(fmt.Sprintf("%s-%02dT12:00:00%s", ym, v, z)) // day of month, by month length and leap rule
+			}
+		}
+	}
+	// ---- leap seconds: 23:59:60 UTC at the end of June / December (valid RFC 3339: must be accepted, either Unix
+	// convention), written in UTC and in offsets; :60 anywhere else is outside both claims
+	ctx.Group("leap-second")
+	for _, day := range []string{"2016-12-31", "2015-06-30", "1972-06-30", "2020-12-31", "2020-06-30", "2020-03-31", "2020-07-15"} {
+		for _, frac := range []string{"", ".5", ".123456", ".999999999"} {
+			y, mo, d := num(day[0:4]), num(day[5:7]), num(day[8:10])
+			for _, off := range []int{0, 9 * 3600, -5 * 3600, 20700, -12600, 14 * 3600, -12 * 3600} {
+				// the local date-time that is 23:59:59 UTC of 'day', with the second written as 60
+				local := daysFromCivil(y, mo, d)*86400 + 86399 + int64(off)
+				lt := time.Unix(local, 0).UTC()
+				for _, colon := range []bool{true, false} {
+					text := fmt.Sprintf("%04d-%02d-%02dT%02d:%02d:60%s%s", lt.Year(), int(lt.Month()), lt.Day(), lt.Hour(), lt.Minute(), frac, fmtOffset(off, colon))
+					ctx.Case("leap/"+text, true, text, func() (string, string) { return checkModel(freshFixture(envDefault), text) })
+				}
+			}
+			text := day + "T23:59:60" + frac + "Z"
+			ctx.Case("leap/"+text, true, text, func() (string, string) { return checkModel(freshFixture(0), text) })
+			text2 := day + "T12:34:60" + frac + "Z"
+			ctx.Case("leap/"+text2, true, text2, func() (string, string) { return checkModel(freshFixture(0), text2) })
 		}
 	}
 	// ---- totality: all strings over a 9-symbol alphabet up to length 6 (quick) / 7 (thorough). Every one of them is
@@ -261,7 +585,7 @@ func enumerate(ctx *seq.Ctx) {
 	if ctx.Thorough() {
 		maxLen = 7
 	}
-	for l := 0; l <= maxLen && !ctx.Stop(); l++ {
+	for l := 0; l <= maxLen && !ctx.Stop() && wanted("short/"); l++ {
 		ctx.Group(fmt.Sprintf("totality/len%d", l))
 		idx := make([]int, l)
 		for {
@@ -275,7 +599,7 @@ func enumerate(ctx *seq.Ctx) {
 				if l == 0 {
 					why = "empty"
 				}
-				ctx.Case("short/"+text, l > 0, text, func() (string, string) { return checkRejected(f, text, why) })
+				ctx.Case("short/"+text, l > 0, text, func() (string, string) { return checkRejected(envFixture(envDefault), text, why) })
 			} else {
 				ctx.Skip()
 			}
@@ -298,13 +622,39 @@ func enumerate(ctx *seq.Ctx) {
 	for _, tz := range []string{"+", "-", "+0", "+03", "+03:", "+03:0", "+030", "+03-00", "+03.00", " 03:00", "+3:00", "+03:0x", "z", "UTC", "+03:00:00", "+03:000"} {
 		for _, frac := range []string{"", ".5", ".123456"} {
 			text := "2020-02-29T23:59:59" + frac + tz
-			ctx.Case("badoffset/"+text, true, text, func() (string, string) { return checkRejected(f, text, "malformed-offset") })
+			ctx.Case("badoffset/"+text, true, text, func() (string, string) { return checkRejected(envFixture(envDefault), text, "malformed-offset") })
 		}
 	}
-	// ---- NIL value, every prefix of valid timestamps, wrong separators, one-edit neighbours
+	// the same menu derived mechanically: every zone form (and no zone), behind every fraction shape, followed / preceded
+	// by every byte value, every proper prefix of it, and followed by another zone
+	ctx.Group("offsets/malformed-mechanical")
+	for _, tz := range []string{"", "Z", "+03:00", "-03:00", "+0300", "-0300"} {
+		for _, frac := range []string{"", ".5", ".123456", ".123456789"} {
+			head := "2020-02-29T23:59:59" + frac
+			for c := 0; c < 256; c++ {
+				after := head + tz + string([]byte{byte(c)})
+				ctx.Case(fmt.Sprintf("zonebyte/after/%s%s/%02x", frac, tz, c), true, after, func() (string, string) { return checkModel(envFixture(envDefault), after) })
+				if tz != "" {
+					before := head + string([]byte{byte(c)}) + tz
+					ctx.Case(fmt.Sprintf("zonebyte/before/%s%s/%02x", frac, tz, c), true, before, func() (string, string) { return checkModel(envFixture(envDefault), before) })
+				}
+			}
+			for n := 0; n < len(tz); n++ {
+				text := head + tz[:n]
+				ctx.Case(fmt.Sprintf("zonebyte/prefix/%s%s/%d", frac, tz, n), true, text, func() (string, string) { return checkModel(envFixture(envDefault), text) })
+			}
+			for _, more := range []string{"Z", "+03:00", "0300", ":00", " ", "\n", "\x00"} {
+				text := head + tz + more
+				ctx.Case(fmt.Sprintf("zonebyte/more/%s%s/%q", frac, tz, more), true, text, func() (string, string) { return checkModel(envFixture(envDefault), text) })
+			}
+		}
+	}
+	// ---- NIL value, every prefix of valid timestamps, wrong separators, one-edit neighbours: every byte value at every
+	// position (every role of the grammar: digit, separator, '.', sign, offset colon, Z, end), judged by the recogniser
 	ctx.Group("shape")
-	ctx.Case("nil", true, "-", func() (string, string) { return checkRejected(f, "-", "nil-value") })
-	seeds := []string{"2019-08-15T15:50:46.866915+03:00", "2020-09-17T16:51:47.867Z", "1999-12-31T23:59:59-0800", "2021-01-01T00:00:00Z"}
+	ctx.Case("nil", true, "-", func() (string, string) { return checkRejected(envFixture(envDefault), "-", "nil-value") })
+	seeds := []string{"2019-08-15T15:50:46.866915+03:00", "2020-09-17T16:51:47.867Z", "1999-12-31T23:59:59-0800", "2021-01-01T00:00:00Z",
+		"2020-02-29T23:59:59.5+05:45", "2016-12-31T23:59:60Z", "2038-01-19T03:14:07.123456789-0330"}
 	for _, s := range seeds {
 		for n := 0; n < len(s); n++ {
 			text := s[:n]
@@ -313,12 +663,12 @@ func enumerate(ctx *seq.Ctx) {
 				if n == 0 {
 					why = "empty"
 				}
-				ctx.Case("prefix/"+text, n > 0, text, func() (string, string) { return checkRejected(f, text, why) })
+				ctx.Case("prefix/"+text, n > 0, text, func() (string, string) { return checkRejected(envFixture(envDefault), text, why) })
 			} else if cutInsideOffset(s, n) {
 				// the date-time part is complete but the numeric offset is cut: a truncated timestamp
-				ctx.Case("prefix/"+text, true, text, func() (string, string) { return checkRejected(f, text, "truncated-offset") })
+				ctx.Case("prefix/"+text, true, text, func() (string, string) { return checkRejected(envFixture(envDefault), text, "truncated-offset") })
 			} else {
-				ctx.Case("prefix/"+text, true, text, func() (string, string) { return checkTotal(f, text) })
+				ctx.Case("prefix/"+text, true, text, func() (string, string) { return checkModel(envFixture(envDefault), text) })
 			}
 		}
 		for _, pos := range []int{4, 7, 10, 13, 16} {
@@ -329,30 +679,131 @@ func enumerate(ctx *seq.Ctx) {
 				b := []byte(s)
 				b[pos] = byte(c)
 				text := string(b)
-				ctx.Case(fmt.Sprintf("sep/%s/%d/%02x", s, pos, c), true, text, func() (string, string) { return checkRejected(f, text, "wrong-separator") })
+				ctx.Case(fmt.Sprintf("sep/%s/%d/%02x", s, pos, c), true, text, func() (string, string) {
+					return checkRejected(envFixture(envDefault), text, "wrong-separator")
+				})
 			}
 		}
-		// all one-edit neighbours: substitution by any byte, deletion, insertion of any byte: never a panic
+		// all one-edit neighbours: substitution by any byte, deletion, insertion of any byte
 		for pos := 0; pos <= len(s); pos++ {
 			for c := 0; c < 256; c++ {
 				if pos < len(s) {
 					b := []byte(s)
 					b[pos] = byte(c)
 					text := string(b)
-					ctx.Case(fmt.Sprintf("edit-sub/%s/%d/%02x", s, pos, c), true, text, func() (string, string) { return checkTotal(f, text) })
+					ctx.Case(fmt.Sprintf("edit-sub/%s/%d/%02x", s, pos, c), true, text, func() (string, string) { return checkModel(envFixture(envDefault), text) })
 				}
 				text := s[:pos] + string([]byte{byte(c)}) + s[pos:]
-				ctx.Case(fmt.Sprintf("edit-ins/%s/%d/%02x", s, pos, c), true, text, func() (string, string) { return checkTotal(f, text) })
+				ctx.Case(fmt.Sprintf("edit-ins/%s/%d/%02x", s, pos, c), true, text, func() (string, string) { return checkModel(envFixture(envDefault), text) })
 			}
 			if pos < len(s) {
 				text := s[:pos] + s[pos+1:]
-				ctx.Case(fmt.Sprintf("edit-del/%s/%d", s, pos), true, text, func() (string, string) {
-					if len(text) < 19 {
-						return checkRejected(f, text, "truncated")
-					}
-					return checkTotal(f, text)
-				})
+				ctx.Case(fmt.Sprintf("edit-del/%s/%d", s, pos), true, text, func() (string, string) { return checkModel(envFixture(envDefault), text) })
 			}
+		}
+	}
+	if ctx.Thorough() && wanted("edit2/") {
+		// two-edit neighbours: every pair of positions, every pair of bytes from a class alphabet (one per role + extremes)
+		ctx.Group("shape/two-edits")
+		classes := []byte{'0', '9', '-', 'T', ':', '.', 'Z', '+', ' ', 'z', 0x00, 0xff}
+		for _, s := range seeds {
+			for p := 0; p < len(s) && !ctx.Stop(); p++ {
+				for q := p + 1; q < len(s); q++ {
+					for _, c1 := range classes {
+						for _, c2 := range classes {
+							if !ctx.Mine() {
+								ctx.Skip()
+								continue
+							}
+							b := []byte(s)
+							b[p], b[q] = c1, c2
+							text := string(b)
+							ctx.Case(fmt.Sprintf("edit2/%s/%d/%02x/%d/%02x", s, p, c1, q, c2), true, text, func() (string, string) { return checkModel(envFixture(envDefault), text) })
+						}
+					}
+				}
+			}
+		}
+	}
+	// ---- length: "strings of any length". Every slot of the grammar stretched to lengths around the powers of two and
+	// around the nine-digit limit of the fraction, with one filler byte per class
+	enumerateLong(ctx)
+	// ---- histories through ONE instance, the value living in a recycled buffer (and, for comparison, in immutable strings)
+	enumerateHistories(ctx)
+	// ---- the transform behind the real syslog parser, parsing receiver and record allocator: pooled record buffers and
+	// the fallback RECEIVE time
+	enumeratePipeline(ctx)
+}
+
+// runConcurrent: two fresh instances, two goroutines, every zone spelling (one ascending, one descending), each value
+// twice; every result is compared.
+func runConcurrent(ei int) (string, string) {
+	useEnv(zoneEnvs[ei])
+	secsUTC, _ := refInstant(2020, 7, 15, 12, 0, 0, "", 0)
+	var wg sync.WaitGroup
+	keys := make([]string, 2)
+	msgs := make([]string, 2)
+	for g := 0; g < 2; g++ {
+		f := newFixture()
+		wg.Add(1)
+		go func(g int) {
+			defer wg.Done()
+			site, detail := seq.Catch(func() {
+				for i := range zoneList {
+					j := i
+					if g == 1 {
+						j = len(zoneList) - 1 - i
+					}
+					text := "2020-07-15T12:00:00.000000001" + zoneList[j]
+					if k, m := checkExact(f, text, secsUTC-zoneOffs[j], 1); k != "" && keys[g] == "" {
+						keys[g], msgs[g] = k+":concurrent-instances", m
+					}
+				}
+			})
+			if site != "" {
+				keys[g], msgs[g] = "panic:"+site, detail
+			}
+		}(g)
+	}
+	wg.Wait()
+	for g := range keys {
+		if keys[g] != "" {
+			return keys[g], msgs[g]
+		}
+	}
+	return "", ""
+}
+
+func enumerateLong(ctx *seq.Ctx) {
+	lengths := []int{10, 11, 12, 13, 14, 15, 16, 17, 18, 19, 20, 21, 22, 23, 24, 25, 26, 27, 28, 29, 30, 31, 32, 33, 34, 35, 36, 37, 38, 39, 40,
+		63, 64, 65, 127, 128, 129, 255, 256, 257, 511, 512, 513, 1023, 1024, 1025, 4095, 4096, 4097}
+	if ctx.Thorough() {
+		lengths = append(lengths, 65535, 65536, 65537, 1<<20, 1<<20+1)
+	}
+	fillers := []byte{'0', '9', '5', 'Z', ':', '+', '-', '.', 'T', ' ', 'a', 0x00, 0xff}
+	valid := "2019-08-15T15:50:46.866915+03:00"
+	ctx.Group("long")
+	for _, n := range lengths {
+		// the input is built by the shard that runs the case only
+		add := func(slot string, build func() string) {
+			id := fmt.Sprintf("long/%s/%d", slot, n)
+			ctx.Case(id, true, id, func() (string, string) { return checkModel(envFixture(envDefault), build()) })
+		}
+		// the fraction: n digits in front of every kind of zone (valid RFC 3339 but beyond the nine digits of the claim)
+		for _, pat := range []string{"0", "9", "5", "1234567890"} {
+			for _, z := range []string{"Z", "+03:00", "-0800", "", "+03:0", "x"} {
+				add("fraction-"+pat+"-"+z, func() string { return "2019-08-15T15:50:46." + strings.Repeat(pat, n/len(pat)+1)[:n] + z })
+			}
+		}
+		for _, c := range fillers {
+			fill := func() string { return strings.Repeat(string([]byte{c}), n) }
+			add(fmt.Sprintf("all-%02x", c), fill)                                                            // the whole value is one repeated byte
+			add(fmt.Sprintf("tail-%02x", c), func() string { return valid + fill() })                        // a valid timestamp and a long tail
+			add(fmt.Sprintf("lead-%02x", c), func() string { return fill() + valid })                        // a long lead and a valid timestamp
+			add(fmt.Sprintf("zone-%02x", c), func() string { return "2019-08-15T15:50:46+" + fill() })       // a long "offset"
+			add(fmt.Sprintf("z-tail-%02x", c), func() string { return "2019-08-15T15:50:46.866Z" + fill() }) // bytes behind Z
+			add(fmt.Sprintf("nofrac-%02x", c), func() string { return "2019-08-15T15:50:46" + fill() })      // bytes right behind the seconds
+			add(fmt.Sprintf("year-%02x", c), func() string { return fill() + "-08-15T15:50:46Z" })           // a long year
 		}
 	}
 }
@@ -362,12 +813,21 @@ func main() {
 	seq.Main(&seq.Config{
 		Property: "C13",
 		Level:    "exploration",
-		Rule: "bounded-exhaustive enumeration through the exported parseTime transform: ALL fractions of 1-6 digits (quick) / 1-9 digits (thorough; quick adds the stated finite sub-domain of 7-9 digit fractions), " +
-			"all numeric offsets hh<24 mm<60 in colon and compact form x 5 fraction shapes, month ends/leap days over 12 boundary years, all strings over {2,0,-,T,:,.,Z,+,space} up to length 6/7, " +
-			"every prefix, every wrong separator byte and every one-edit neighbour of 4 valid timestamps; oracle: integer days-from-civil reference; non-trivial = every case except the empty string (all reach the parser)",
+		Rule: "bounded-exhaustive enumeration through the exported parseTime transform under 5 process time zones (hand-built zone images: UTC, two northern DST zones, a southern half-hour DST zone, +05:45), big sweeps under the CET-like one: " +
+			"ALL fractions of 1-6 digits (quick) / 1-9 digits (thorough; quick adds the stated finite sub-domain of 7-9 digit fractions), fraction lengths 0-9 x zone forms, " +
+			"all numeric offsets hh<24 mm<60 in colon and compact form and Z x fraction shapes, the same x winter/summer date x process zone through fresh instances (first, uncached parse compared too), the days of the local offset change hour by hour, " +
+			"month ends/leap days over 13 boundary years x process zone, every value 00-99 of every two-digit number and every year 0000-9999, leap seconds, all strings over {2,0,-,T,:,.,Z,+,space} up to length 6/7, " +
+			"every prefix, every wrong separator byte and every one-edit neighbour (all 256 byte values at every position) of 7 valid timestamps and every byte before/behind every zone form judged by a reference recogniser (two-edit neighbours thorough), " +
+			"every grammar slot stretched to 49 lengths up to 4097 bytes (thorough 1 MiB) x 13 filler bytes, all ordered pairs (a,b,a) of a 31-value menu and whole-zone sweeps through ONE fresh instance with the value in a recycled buffer / immutable, " +
+			"two instances driven concurrently, and the transform behind the real syslog parser + parsing receiver + record allocator (pooled buffers, receive time after idle flushes); " +
+			"oracle: integer days-from-civil reference cross-checked against time.Parse; non-trivial = every case except the empty string (all reach the parser)",
 		Assumptions: []string{
-			"leap second :60 and digit positions holding non-digits are outside the exactness claim (only no-panic is required there)",
+			"digit positions holding non-digits, numbers out of range (month 13, 30 February, hour 24, offset +24:00 ...), :60 anywhere but 23:59:60 UTC on 30 June / 31 December, and fractions of more than nine digits are outside both claims: no panic, and an error that is counted leaves the timestamp untouched; accepted with any value or rejected",
+			"a valid leap second (23:59:60 UTC on 30 June / 31 December, in any offset) must be accepted; Unix time cannot express it: the instant of :59 plus one second or the instant of :59 are both accepted, fraction kept",
 			"a date-time without offset is not a valid RFC 3339 timestamp: only totality is checked for it",
+			"a complete date-time followed by bytes that are not '[.digits] offset' (cut or malformed offset, bytes behind Z or behind the offset, '.' without digits) counts as not shaped like a date-time (truncated / wrong separators): must be rejected; lower-case t / z are rejected as in RFC 5424 (the package documents the RFC 5424 profile)",
+			"receive time (pipeline group): a clock reading taken not before the start of the most recent Flush / NewSink call preceding the record's Accept (MessageReceiverSink.Flush is documented as called periodically) and not after Accept returned",
+			"the two-goroutine group needs real parallelism to expose shared unsynchronised state: a pass there is no proof, a process death is attributed to the case",
 		},
 		Enumerate:        enumerate,
 		ThoroughDeadline: 90 * time.Minute,
